@@ -579,6 +579,7 @@ struct cnt_str {
   coap_string_t base_buf;
   coap_string_t buf;
   int n;
+  int err;
 };
 
 static void
@@ -671,6 +672,11 @@ write_option(const uint8_t *s, size_t len, void *data) {
   size_t optionsize;
   assert(state);
 
+  if (check_segment(s, len, &optionsize) < 0) {
+    /* malformed percent-escape */
+    state->err = 1;
+    return;
+  }
   res = make_decoded_option(s, len, state->buf.s, state->buf.length, &optionsize);
   if (res == 0) {
     state->buf.s += optionsize;
@@ -682,13 +688,13 @@ write_option(const uint8_t *s, size_t len, void *data) {
 int
 coap_split_path(const uint8_t *s, size_t length,
                 unsigned char *buf, size_t *buflen) {
-  struct cnt_str tmp = { { *buflen, buf }, { *buflen, buf }, 0 };
+  struct cnt_str tmp = { { *buflen, buf }, { *buflen, buf }, 0, 0 };
 
   coap_split_path_impl(s, length, write_option, &tmp);
 
   *buflen = *buflen - tmp.buf.length;
 
-  return tmp.n;
+  return tmp.err ? -1 : tmp.n;
 }
 
 void
@@ -805,7 +811,7 @@ coap_path_into_optlist(const uint8_t *s, size_t length, coap_option_num_t optnum
 int
 coap_split_query(const uint8_t *s, size_t length,
                  unsigned char *buf, size_t *buflen) {
-  struct cnt_str tmp = { { *buflen, buf }, { *buflen, buf }, 0 };
+  struct cnt_str tmp = { { *buflen, buf }, { *buflen, buf }, 0, 0 };
   const uint8_t *p;
 
   p = s;
@@ -823,7 +829,7 @@ coap_split_query(const uint8_t *s, size_t length,
   write_option(p, s - p, &tmp);
 
   *buflen = *buflen - tmp.buf.length;
-  return tmp.n;
+  return tmp.err ? -1 : tmp.n;
 }
 
 int
